@@ -74,6 +74,27 @@ def run(chk):
             rep = S.repertoire(vlib.REPO, font)
             texts = ['%s:0' % ''.join('%08x' % c for c in S.gen_text(rng, rep, 6)) for _ in range(2)]
             cases.append('t%d thr %s %d %d %d %s %s' % (len(cases), p, rng.choice((6, 7)), 4, 10, '-', ' '.join(texts)))
+    # fonts with a glyph the glyph loader cannot read (an empty attribute block in Gloc): a face made with gr_face_preloadAll either is
+    # refused or is as read-only as any other preloaded face
+    from props import cmapgen as _cg
+    for font in ('Padauk.ttf', 'charis_r_gr.ttf', 'Scheherazadegr.ttf'):
+        fp = os.path.join(vlib.REPO, 'tests/fonts', font)
+        data = open(fp, 'rb').read()
+        go, gl = _K.font_tables(data)[b'Gloc']
+        w = 4 if _st.unpack('>H', data[go + 4:go + 6])[0] & 1 else 2
+        nblocks = (gl - 8) // w - 1
+        cm = _cg.parse_font_cmap(fp)
+        rep = S.repertoire(vlib.REPO, font)
+        for k2 in range(3 if thorough else 1):
+            g = rng.choice((nblocks - 1, nblocks - 1, rng.choice([cm[c] for c in rep if cm.get(c, 0) > 1] or [nblocks - 1])))
+            if not (0 < g < nblocks): continue
+            gloc = bytearray(data[go:go + gl])
+            if g == nblocks - 1: gloc[8 + w * (g + 1):8 + w * (g + 2)] = gloc[8 + w * g:8 + w * (g + 1)]     # the last block ends where it starts
+            else: gloc[8 + w * g:8 + w * (g + 1)] = gloc[8 + w * (g + 1):8 + w * (g + 2)]
+            p = os.path.join(ndir, 'noglyph%d_%s' % (k2, font))
+            open(p, 'wb').write(_K.replace_table(data, b'Gloc', bytes(gloc)))
+            texts = ['%s:0' % ''.join('%08x' % c for c in S.gen_text(rng, rep, 8)) for _ in range(3)]
+            cases.append('t%d thr %s %d %d %d %s %s' % (len(cases), p, rng.choice((6, 7)), 4, 10, rng.choice(('-', '12')), ' '.join(texts)))
     _, il, err = vlib.run_pair(None, hexe, cases, timeout=3000, impl_env=TSAN_ENV, shards=8)
     classes, dist = set(), {}
     for c, l in zip(cases, il):
